@@ -4,7 +4,7 @@ from hypothesis import strategies as st
 from vlib import hyp, fsgen, core, tool, run as vrun, e4ref
 LEVEL = 'exploration'
 FEATS = ['has_journal', 'ext_attr', 'resize_inode', 'dir_index', 'filetype', 'extent', 'flex_bg', 'sparse_super', 'large_file', 'huge_file', 'uninit_bg', 'dir_nlink', 'extra_isize', '64bit', 'meta_bg', 'inline_data',
-         'bigalloc', 'quota', 'project', 'metadata_csum', 'metadata_csum_seed', 'sparse_super2', 'ea_inode', 'large_dir', 'orphan_file', 'stable_inodes', 'verity']
+         'bigalloc', 'quota', 'project', 'metadata_csum', 'metadata_csum_seed', 'sparse_super2', 'ea_inode', 'large_dir', 'orphan_file', 'stable_inodes', 'verity', 'fast_commit']
 RULE = ('Hypothesis builds an mke2fs command line: -b 1k/2k/4k, -t ext2/3/4/none, -T usage type, -O with 0-5 features added/removed out of %d, -C, -I, -i/-N, -g (multiples of 8 up to 8*bs), -G, -m, -J size, -r 0, -L, -e, '
         '-E {stride, stripe_width, resize, offset, packed_meta_blocks, num_backup_sb, root_owner, orphan_file_size, quotatype}, -d <small host tree>, two boundary-directed profiles (many small groups x odd RAID stride without flex_bg; short last backup group x oversized reserved GDT), and a device size that is boundary-biased '
         '(k*blocks_per_group + delta around group boundaries and around multiples of descriptors-per-block groups, single group). Accepted (exit 0) => e2fsck -fn exits 0, the independent checker e4ref is clean, '
@@ -206,7 +206,13 @@ def body(case, env):
     if case['jsize'] and 'has_journal' in feats and sb['journal_inum']:
         try:
             J = e4ref.FS(view).read_inode(sb['journal_inum'])
-            if J.size != case['jsize'] << 20: bad.append('journal size %d' % J.size)
+            want = case['jsize'] << 20
+            if 'fast_commit' in feats:
+                # with fast_commit the journal inode also holds the fast-commit area (s_num_fc_blks of the journal superblock): inode size = requested size + that area
+                try:
+                    Rj = e4ref.Reader(view); jb = Rj.blockmap(J)[0][1]; jsb = Rj.fs.rb(jb); nfc = struct.unpack_from('>I', jsb, 0x54)[0]; want += (nfc if nfc else 256) * Rj.fs.bs      # s_num_fc_blks (0 = the default of 256 blocks)
+                except Exception: pass
+            if J.size != want: bad.append('journal size %d (expected %d)' % (J.size, want))
         except Exception as ex: bad.append('journal inode unreadable %r' % ex)
     if case['owner'] and not tree:
         try:
